@@ -5,7 +5,8 @@ From Coq Require Import List NArith Bool String.
 From TG.Gen Require Import GenTokens GenLexTables GenGrammar GenAst GenDocGrammar.
 From TG.Model Require Import Chars Lexer Tree ParserPrims GInterp DocGrammar Completion GramAbs GramCert AstAccess AstAccessInst TokSem.
 From TG.Model Require Import GramComp.
-From TG.Proofs Require Import GramSound AccessProofs TokRefine TokFrame TokComplete TokType TokRange C04Proofs GramCompSound C04Complete.
+From TG.Model Require Import Prep.
+From TG.Proofs Require Import GramSound AccessProofs TokRefine TokFrame TokComplete TokType TokRange C04Proofs GramCompSound TokLead C04Complete.
 Import ListNotations.
 Close Scope string_scope.
 Open Scope list_scope.
@@ -166,18 +167,27 @@ Theorem C04_complete_restricted_if : forall m f, In (m, f) comp_covered ->
     end.
 Proof. exact comp_complete_model. Qed.
 Print Assumptions C04_complete_restricted_if.
-(** WHOLE FILES: a text whose token sequence (no leading trivia, no lexical error token) is a sentence of the documented
-    grammar with the restricted `if` is parsed by the parser model with ZERO errors - or the model panics (excluded by C02).
-    Together with C04_errors_or_sentence this is the property C04, on the model, up to the dangling-else restriction. *)
-Theorem C04_complete_parse : forall txt w, Toks (p_new txt) w -> derives comp_grammar nt_SourceFile w ->
+(** WHOLE FILES, EVERY TEXT.  [text_tokens txt] = the kinds of the tokens the preprocessor model delivers for txt
+    ([prep_text], the object of property C15) without trivia - white space, comments, preprocessor directives and the regions
+    they disable - and without the final Eof.  [lex_clean txt] is the decidable exclusion: no lexical / preprocessor Error
+    token among them (and the run ends with Eof, which it always does).  If the non-trivia token sequence of a text is a
+    sentence of the documented grammar (with the restricted `if`), the parser model parses the text with ZERO errors - or
+    panics (excluded by C02).  Together with C04_errors_or_sentence this is property C04, on the model, in both
+    directions. *)
+Theorem C04_complete_parse : forall txt, lex_clean txt = true -> derives comp_grammar nt_SourceFile (text_tokens txt) ->
   exists n0, forall n, (n0 <= n)%nat ->
     parse_with n grammar_prog grammar_entry txt = ParsePanic \/
     exists t st, parse_with n grammar_prog grammar_entry txt = ParseOk t [] st.
-Proof. exact comp_complete_parse. Qed.
+Proof. exact comp_complete_any_text. Qed.
 Print Assumptions C04_complete_parse.
+Check (eq_refl : text_tokens = fun txt => filter is_word_kind (map (fun x => fst (fst x)) (prep_text txt))).
+Check (eq_refl : lex_clean = fun txt => negb (existsb (fun k => tk_eqb k T_Error) (text_kinds txt)) && tk_eqb (last (text_kinds txt) T_Error) T_Eof).
+Check (eq_refl : is_word_kind = fun k => negb (is_trivia k) && negb (tk_eqb k T_Eof)).
+(** non-vacuity: a text with comments, white space and a disabled #ifdef region around `def x ;` *)
 Example C04_complete_parse_nonvacuous :
-  Toks (p_new comp_example_text) ([T_Def] ++ [T_Id] ++ [T_Semi]) /\ derives comp_grammar nt_SourceFile ([T_Def] ++ [T_Id] ++ [T_Semi]).
-Proof. exact (conj comp_example_toks comp_example_sentence). Qed.
+  lex_clean comp_example_text2 = true /\ text_tokens comp_example_text2 = [T_Def] ++ [T_Id] ++ [T_Semi] /\
+  derives comp_grammar nt_SourceFile ([T_Def] ++ [T_Id] ++ [T_Semi]).
+Proof. exact (conj (proj1 comp_example_ntk2) (conj (proj2 comp_example_ntk2) comp_example_sentence)). Qed.
 Theorem C04_complete_restricted_if_sub : forall n w, derives comp_grammar n w -> derives doc_rules_must (comp_phi n) w.
 Proof. exact comp_grammar_sub. Qed.
 (** [comp_phi] is the identity on the documented nonterminals and maps the three added ones (ClosedStatement, LetBlock,
